@@ -44,7 +44,7 @@ func init() {
 		ThoroughConfigs: []string{"elpscheck"},
 	})
 	registerProp(PropSpec{ID: "C01",
-		Rules: []string{"ERR.same", "ERR.discarded"},
+		Rules: []string{"ERR.same", "ERR.discarded", "BIND.fresh-scope", "CENSUS.LEnv.scope", "CENSUS.LEnv.parent", "PAIR.package", "PAIR.load-package", "PAIR.loc", "REG.resolved", "REG.formals", "REG.arity"},
 		Explanation: "error discipline of the evaluator kernel",
 		Assumptions: []string{"go/types + go/cfg model of the working tree"},
 		ThoroughConfigs: []string{"elpscheck"},
